@@ -1205,7 +1205,7 @@ impl Domain for D {
             emit(w, "all2", ver, hdr, &s, "");
         }
         // random server histories
-        let n_hist = if thorough { 1200 } else { 70 };
+        let n_hist = if thorough { 600 } else { 56 };
         for k in 0..n_hist {
             let ver = if rng.chance(1, 6) { 1 } else { 2 };
             let hv = if rng.chance(1, 5) { 1 + rng.below(2) as u32 } else { 0 };
@@ -1216,7 +1216,7 @@ impl Domain for D {
             let total = hdr.len() + s.len();
             emit(w, "run", ver, &hdr, &s, "w");
             emit(w, if total > 3000 { "hash" } else { "run" }, ver, &hdr, &s, "b");
-            if total <= (if thorough { 2500 } else { 900 }) {
+            if total <= (if thorough { 1500 } else { 800 }) {
                 emit(w, "all2", ver, &hdr, &s, "");
             } else {
                 for _ in 0..(if thorough { 60 } else { 12 }) {
